@@ -65,6 +65,79 @@ theorem Inv.res_snap {p : Pool K} (h : Inv p) (t : Task K) (ht : t ∈ p.tasks) 
 theorem inv_init (perShard : Bool) (target : Nat) (ks : Option K) : Inv (Pool.init perShard target ks) := by
   constructor <;> simp [Pool.init, Strong]
 
+/-! ### the shard-major walk and the swap-remove keep the set of connections -/
+
+theorem mem_insertByShard (sh : Nat → Nat) (i x : Nat) (l : List Nat) :
+    x ∈ insertByShard sh i l ↔ x = i ∨ x ∈ l := by
+  induction l with
+  | nil => simp [insertByShard]
+  | cons j l ih =>
+    simp only [insertByShard]
+    split
+    · simp
+    · simp only [List.mem_cons, ih]
+      constructor
+      · rintro (h | h | h)
+        · exact Or.inr (Or.inl h)
+        · exact Or.inl h
+        · exact Or.inr (Or.inr h)
+      · rintro (h | h | h)
+        · exact Or.inr (Or.inl h)
+        · exact Or.inl h
+        · exact Or.inr (Or.inr h)
+
+theorem mem_byShard (p : Pool K) (x : Nat) : x ∈ p.byShard ↔ x ∈ p.conns := by
+  unfold Pool.byShard
+  suffices h : ∀ (l acc : List Nat), x ∈ l.foldl (fun acc i => insertByShard (fun j => (p.net j).shard) i acc) acc ↔
+      x ∈ acc ∨ x ∈ l by simpa using h p.conns []
+  intro l
+  induction l with
+  | nil => intro acc; simp
+  | cons a l ih =>
+    intro acc
+    simp only [List.foldl_cons, ih, mem_insertByShard, List.mem_cons]
+    constructor
+    · rintro ((h | h) | h)
+      · exact Or.inr (Or.inl h)
+      · exact Or.inl h
+      · exact Or.inr (Or.inr h)
+    · rintro (h | h | h)
+      · exact Or.inl (Or.inr h)
+      · exact Or.inl (Or.inl h)
+      · exact Or.inr h
+
+theorem byShard_eq_nil (p : Pool K) : p.byShard = [] ↔ p.conns = [] := by
+  constructor
+  · intro h
+    cases hc : p.conns with
+    | nil => rfl
+    | cons a l =>
+      have : a ∈ p.byShard := (mem_byShard p a).mpr (by rw [hc]; exact List.mem_cons_self)
+      rw [h] at this; cases this
+  · intro h
+    cases hb : p.byShard with
+    | nil => rfl
+    | cons a l =>
+      have : a ∈ p.conns := (mem_byShard p a).mp (by rw [hb]; exact List.mem_cons_self)
+      rw [h] at this; cases this
+
+theorem mem_removeConn (p : Pool K) (i x : Nat) (h : x ∈ p.removeConn i) : x ∈ p.conns := by
+  unfold Pool.removeConn at h
+  simp only [List.mem_append] at h
+  rcases h with h | h
+  · exact (List.mem_filter.mp h).1
+  · have hb : ∀ y ∈ (p.conns.filter fun j => (p.net j).shard == (p.net i).shard), y ∈ p.conns :=
+      fun y hy => (List.mem_filter.mp hy).1
+    split at h
+    · split at h
+      · rename_i last hlast
+        have h1 := List.dropLast_subset _ h
+        rcases List.mem_or_eq_of_mem_set h1 with h2 | h2
+        · exact hb x h2
+        · subst h2; exact hb _ (List.mem_of_getLast? hlast)
+      · cases h
+    · exact hb x h
+
 /-- Frame: the network only got worse (connections broke), connections were unpublished or a connection
 carrying the current keyspace (nothing in flight on it) was published, setting-keyspace futures were dropped or
 added for private connections; bookkeeping fields are free. -/
@@ -306,7 +379,7 @@ theorem inv_useKs {p : Pool K} (h : Inv p) (k : K) : Inv (step p (.useKs k)) := 
   · intro t ht i hi
     simp only [List.mem_cons] at ht
     rcases ht with rfl | ht
-    · exact h.conns_lt i hi
+    · exact h.conns_lt i ((mem_byShard p i).mp hi)
     · exact h.snap_lt t ht i hi
   · simp only [List.pairwise_cons]
     refine ⟨fun t ht => ?_, h.ids⟩
@@ -341,7 +414,7 @@ theorem inv_useKs {p : Pool K} (h : Inv p) (k : K) : Inv (step p (.useKs k)) := 
     refine ⟨(h.priv e he).1, fun t ht => ?_⟩
     simp only [List.mem_cons] at ht
     rcases ht with rfl | ht
-    · exact (h.priv e he).1
+    · exact fun hc => (h.priv e he).1 ((mem_byShard p _).mp hc)
     · exact (h.priv e he).2 t ht
   · exact h.setting_clean
   · intro i tid k' hm
@@ -369,7 +442,7 @@ theorem inv_useKs {p : Pool K} (h : Inv p) (k : K) : Inv (step p (.useKs k)) := 
     · left
       simp only at ho ⊢
       cases hc : p.conns with
-      | nil => simp [hc] at ho ⊢; exact ho.symm
+      | nil => simp [hc] at ho ⊢; exact ⟨(byShard_eq_nil p).mpr hc, ho.symm⟩
       | cons a l => simp [hc] at ho
     · exact h.resp t ht o ho
   · intro hov
@@ -382,9 +455,9 @@ theorem inv_useKs {p : Pool K} (h : Inv p) (k : K) : Inv (step p (.useKs k)) := 
       exact hov t ht (by simp [hnone])
     · intro i hi _ _
       unfold ConnOk
-      exact ⟨fun hn => absurd hi hn, fun _ => ⟨fun hr => by simp at hr, fun _ hs => by simp at hs⟩⟩
+      exact ⟨fun hn => absurd ((mem_byShard p i).mpr hi) hn, fun _ => ⟨fun hr => by simp at hr, fun _ hs => by simp at hs⟩⟩
   · intro i hi hns _ _
-    exact absurd hi (hns _ List.mem_cons_self)
+    exact absurd ((mem_byShard p i).mpr hi) (hns _ List.mem_cons_self)
 
 theorem unique_id {ts : List (Task K)} (hp : ts.Pairwise (fun a b => a.id ≠ b.id)) {a b : Task K}
     (ha : a ∈ ts) (hb : b ∈ ts) (hid : a.id = b.id) : a = b := by
@@ -1648,7 +1721,7 @@ theorem inv_step {p : Pool K} (h : Inv p) (e : Ev K) : Inv (step p e) := by
     split
     · exact h
     · split
-      · exact inv_simple h (NetLe.refl _) (fun j hj => (List.mem_filter.mp hj).1) (fun _ he => he) rfl rfl rfl rfl
+      · exact inv_simple h (NetLe.refl _) (fun j hj => mem_removeConn p i j hj) (fun _ he => he) rfl rfl rfl rfl
       · exact inv_simple h (NetLe.refl _) (fun _ hj => hj) (fun _ he => he) rfl rfl rfl rfl
   | userUse i x =>
     simp only [step]
@@ -1744,7 +1817,7 @@ theorem publish_step {p : Pool K} (h : Inv p) (e : Ev K) (j : Nat)
     split at hj
     · exact absurd hj hn
     · split at hj
-      · exact absurd (List.mem_filter.mp hj).1 hn
+      · exact absurd (mem_removeConn p _ j hj) hn
       · exact absurd hj hn
   | opened shard sharder requested =>
     simp only [step] at hj ⊢
@@ -2373,7 +2446,7 @@ theorem cinv_step {c : Cluster K} (h : CInv c) (e : CEv K) : CInv (cstep c e) :=
     split
     · exact h
     · exact cinv_pool_step h n e
-  | addNode perShard target =>
+  | addNode perShard target filt =>
     simp only [cstep]
     have hne : ∀ f ∈ c.fanouts, ∀ n ∈ f.nodes, setPool c.pools c.nNodes (Pool.init perShard target c.usedKs) n = c.pools n := by
       intro f hf n hn
